@@ -160,6 +160,9 @@ theorem frame_st (rt : RT) (s : St) (h : s.cfg = rt.st.cfg) (he : s.err = rt.st.
 theorem frame_deliver (e : Ev) (rt : RT) : Frame rt (deliver e rt) :=
   (frame_st rt (enqueue e rt.st) (enqueue_cfg e rt.st) (enqueue_err e rt.st)).trans (frame_rlog _ _)
 
+theorem frame_deliverQ (b : Bool) (e : Ev) (rt : RT) : Frame rt (deliverQ b e rt) :=
+  (frame_st rt (enqueueQ b e rt.st) (enqueueQ_cfg b e rt.st) (enqueueQ_err b e rt.st)).trans (frame_rlog _ _)
+
 theorem stFail_cfg (s : St) : (stFail s).cfg = s.cfg := by
   unfold stFail; split <;> rfl
 theorem stFail_err (s : St) : (stFail s).err = s.err := by
@@ -287,6 +290,7 @@ theorem good_fire (rt : RT) (t : Timer) (ht : t ∈ rt.timers) (g : Good rt) :
 
 -- primitives of a window ----------------------------------------------------------------------------------------
 theorem shrink_deliver (e : Ev) (rt : RT) : Shrink rt (deliver e rt) := (frame_deliver e rt).shrink
+theorem shrink_deliverQ (b : Bool) (e : Ev) (rt : RT) : Shrink rt (deliverQ b e rt) := (frame_deliverQ b e rt).shrink
 
 theorem good_clear (rt : RT) (g : Good rt) : Good { rt with timers := [], invs := [] } := by
   have := good_filter rt (fun _ => false) (fun _ => false) g
@@ -323,7 +327,7 @@ theorem shrink_fireTimerQ (fl : Flavor) (rt : RT) (t : Timer) (ht : t ∈ rt.tim
   | sync =>
     simp only
     split
-    · exact (shrink_fire rt t ht).trans (shrink_deliver _ _)
+    · exact (shrink_fire rt t ht).trans (shrink_deliverQ _ _ _)
     · exact shrink_dropTimer rt t
 
 theorem shrink_completeInv (rt : RT) (i : Invocation) : Shrink rt (completeInv i rt) := by
@@ -494,10 +498,10 @@ theorem shrink_fireWakeQ (fl : Flavor) (rt : RT) (w : Wake) (hw : ∀ t, w = .tm
   | tm t => exact shrink_fireTimerQ fl rt t (hw t rfl)
   | iv i => exact shrink_completeInv rt i
 
-theorem shrink_extQ (m : Machine) (op : ExtOp) (rt : RT) : Shrink rt (extQ m op rt) := by
+theorem shrink_extQ (fl : Flavor) (m : Machine) (op : ExtOp) (rt : RT) : Shrink rt (extQ fl m op rt) := by
   unfold extQ
   cases op with
-  | send e => exact shrink_deliver _ _
+  | send e => exact shrink_deliverQ _ _ _
   | stop => exact shrink_stop rt
   | obs => exact (frame_rlog _ _).shrink
 
@@ -559,7 +563,7 @@ theorem shrink_windowLoop (fl : Flavor) (m : Machine) (uT uS : Nat) :
     unfold windowLoop
     cases hn : nextOf rt.agenda uT (dueWake rt uT uS) with
     | ext t op rest =>
-      exact (((shrink_agenda rt rest).trans (frame_setNow t _).shrink).trans (shrink_extQ m op _)).trans (ih _)
+      exact (((shrink_agenda rt rest).trans (frame_setNow t _).shrink).trans (shrink_extQ fl m op _)).trans (ih _)
     | wake w =>
       have hw := dueWake_min rt uT uS w (nextOf_wake _ _ _ w hn)
       refine ((frame_setNow w.due rt).shrink.trans (shrink_fireWakeQ fl _ w ?_)).trans (ih _)
@@ -1765,34 +1769,36 @@ theorem keeps_asyncDrain (c : RCx) (hw : WndOK c) : ∀ (fuel : Nat) (rt : RT), 
         exact (Keeps.trans (b := { rt with st := { rt.st with queue := rest } }) (keeps_st_eq rt _ rfl)
           (keeps_asyncStep c hw q _)).trans (ih _)
 
-theorem keeps_drainLoop (c : RCx) (hw : WndOK c) : ∀ (budget : Nat) (rt : RT), Keeps rt (drainLoopRT c budget rt) := by
-  intro budget
+theorem keeps_drainLoop (c : RCx) (hw : WndOK c) : ∀ (fuel ch : Nat) (rt : RT), Keeps rt (drainLoopRT c fuel ch rt) := by
+  intro fuel
   have hok := hooksFlagged_ok c.u c.m
-  induction budget with
+  induction fuel with
   | zero =>
-    intro rt; unfold drainLoopRT
+    intro ch rt; unfold drainLoopRT
     split
     · exact Keeps.refl rt
     · exact keeps_st_eq rt _ rfl
-  | succ budget ih =>
-    intro rt; unfold drainLoopRT
+  | succ fuel ih =>
+    intro ch rt; unfold drainLoopRT
     split
     · exact Keeps.refl rt
     · split
       · exact keeps_st_eq rt _ rfl
       · rename_i q rest _ _
-        have k2 := (Keeps.trans (b := { rt with st := emit ("#recv:" ++ q.ev.type) { rt.st with queue := rest } }) (keeps_st_eq rt _ rfl)
-          (keeps_processEvent c hw _ hok q.ev _)).trans (keeps_transientLoop c hw _ hok c.m.maxIterations _)
-        simp only
         split
-        · exact k2
-        · exact k2.trans (ih _)
+        · exact Keeps.trans (b := { rt with st := syncPurge rt.st }) (keeps_st_eq rt _ rfl) (ih _ _)
+        · have k2 := (Keeps.trans (b := { rt with st := emit ("#recv:" ++ q.ev.type) { rt.st with queue := rest } }) (keeps_st_eq rt _ rfl)
+            (keeps_processEvent c hw _ hok q.ev _)).trans (keeps_transientLoop c hw _ hok c.m.maxIterations _)
+          simp only
+          split
+          · exact k2
+          · exact k2.trans (ih _ _)
 
 theorem keeps_syncSend (c : RCx) (hw : WndOK c) (e : Ev) (rt : RT) : Keeps rt (syncSendRT c e rt) := by
   unfold syncSendRT
   split
   · exact Keeps.trans (b := { rt with st := { rt.st with queue := rt.st.queue ++ [⟨e, false⟩] } }) (keeps_st_eq rt _ rfl)
-      (keeps_drainLoop c hw _ _)
+      (keeps_drainLoop c hw _ _ _)
   · exact Keeps.refl rt
 
 theorem keeps_lt (rt : RT) (b : Bool) : Keeps rt { rt with lt := b } :=
@@ -1859,7 +1865,7 @@ theorem keeps_startEnter (c : RCx) (hw : WndOK c) (rt : RT) : Keeps rt (startEnt
 theorem keeps_startFinish (c : RCx) (hw : WndOK c) (rt : RT) : Keeps rt (startFinish c rt) := by
   unfold startFinish
   cases c.fl with
-  | sync => exact keeps_drainLoop c hw _ _
+  | sync => exact keeps_drainLoop c hw _ _ _
   | async =>
     refine Keeps.trans ?_ (keeps_settle c hw _ _)
     unfold loopCreated
@@ -2411,12 +2417,12 @@ theorem asyncDrain_st (c : RCx) (hfl : c.fl = .async) (hq : Quiet c) (hn : NoInv
         rw [ih, asyncStep_st c hfl hq hn]
 
 theorem drainLoop_st (c : RCx) (hfl : c.fl = .sync) (hq : Quiet c) (hn : NoInvoke c.m) :
-    ∀ (budget : Nat) (rt : RT), (drainLoopRT c budget rt).st = drainLoop c.m c.u budget rt.st := by
-  intro budget
-  induction budget with
-  | zero => intro rt; unfold drainLoopRT drainLoop; split <;> rfl
-  | succ budget ih =>
-    intro rt
+    ∀ (fuel ch : Nat) (rt : RT), (drainLoopRT c fuel ch rt).st = drainLoop c.m c.u fuel ch rt.st := by
+  intro fuel
+  induction fuel with
+  | zero => intro ch rt; unfold drainLoopRT drainLoop; split <;> rfl
+  | succ fuel ih =>
+    intro ch rt
     unfold drainLoopRT drainLoop
     split
     · rename_i he; simp only [he]
@@ -2424,15 +2430,17 @@ theorem drainLoop_st (c : RCx) (hfl : c.fl = .sync) (hq : Quiet c) (hn : NoInvok
       simp only [he]
       split
       · rfl
-      · have h1 := processEvent_st c hq hn (hooksFlagged c.u c.m) q.ev { rt with st := emit ("#recv:" ++ q.ev.type) { rt.st with queue := rest } }
-        have h2 := transientLoop_st c hq hn (hooksFlagged c.u c.m) c.m.maxIterations
-          (processEventRT c (hooksFlagged c.u c.m) q.ev { rt with st := emit ("#recv:" ++ q.ev.type) { rt.st with queue := rest } })
-        rw [h1, hfl] at h2
-        simp only at h2 ⊢
-        rw [← h2]
-        split
-        · rfl
+      · split
         · rw [ih]
+        · have h1 := processEvent_st c hq hn (hooksFlagged c.u c.m) q.ev { rt with st := emit ("#recv:" ++ q.ev.type) { rt.st with queue := rest } }
+          have h2 := transientLoop_st c hq hn (hooksFlagged c.u c.m) c.m.maxIterations
+            (processEventRT c (hooksFlagged c.u c.m) q.ev { rt with st := emit ("#recv:" ++ q.ev.type) { rt.st with queue := rest } })
+          rw [h1, hfl] at h2
+          simp only at h2 ⊢
+          rw [← h2]
+          split
+          · rfl
+          · rw [ih]
 
 -- services ---------------------------------------------------------------------------------------------------------
 theorem minWake_iv (rt : RT) (i : Invocation) (h : minWake rt = some (.iv i)) : i ∈ rt.invs ∧ i.started = true := by
